@@ -18,7 +18,12 @@ inline Counters & counters() { static Counters c; return c; }
 
 struct CaseResult { bool ok = true; std::string rule, msg; void fail(const char * r, const std::string & m) { if(ok) { ok = false; rule = r; msg = m; } } };
 
-enum { A_MOVE = 1, A_READ, A_ISTYPE, A_QUEUE, A_REBUILD };
+enum { A_MOVE = 1, A_READ, A_ISTYPE, A_QUEUE, A_REBUILD, A_THROW };
+
+// fault for kind 1: the n-th copy / move construction of a held object throws (0 = never)
+struct Boom { };
+inline int & throwCountdown() { static int n = 0; return n; }
+inline void maybeThrow() { int & n = throwCountdown(); if(n > 0 && --n == 0) throw Boom(); }
 
 inline unsigned char patt(int seed, int i) { return (unsigned char)((seed * 131 + i * 7 + 3) & 0xff); }
 
@@ -40,8 +45,8 @@ template <int N> struct P<N, 1>
 	unsigned char b[N];
 	enum { lid = kAuxBase + N * 10 + 1 };
 	explicit P(int seed) { for(int i = 0; i < N; ++i) b[i] = patt(seed, i); ledger().onCtor(this, lid, 0); }
-	P(const P & o) { memcpy(b, o.b, N); ++counters().copies; ledger().onUse(&o, lid); ledger().onCtor(this, lid, 1); }
-	P(P && o) { memcpy(b, o.b, N); ++counters().moves; ledger().onUse(&o, lid); ledger().onCtor(this, lid, 2); }
+	P(const P & o) { maybeThrow(); memcpy(b, o.b, N); ++counters().copies; ledger().onUse(&o, lid); ledger().onCtor(this, lid, 1); }
+	P(P && o) { maybeThrow(); memcpy(b, o.b, N); ++counters().moves; ledger().onUse(&o, lid); ledger().onCtor(this, lid, 2); }
 	~P() { ledger().onDtor(this, lid); }
 	bool equals(int seed) const { ledger().onUse(this, lid); for(int i = 0; i < N; ++i) if(b[i] != patt(seed, i)) return false; return true; }
 	static const bool copyable = true;
@@ -196,6 +201,28 @@ CaseResult runCase(const Program & prog)
 					else q.process();
 				}
 				if(r.ok && seen != 2 * rounds) r.fail("anydata.queue.count", "listeners ran " + std::to_string(seen) + " times for " + std::to_string(2 * rounds) + " events");
+				break;
+			}
+			case A_THROW: {
+				// the copy / move construction of the held object throws (kind 1 only; the other kinds never throw): while an AnyData
+				// is built from a value (op.b odd) or while an AnyData is moved (op.b even). An AnyData whose construction failed
+				// holds nothing: no destructor may run on storage that never held an object, and nothing may leak.
+				alignas(16) unsigned char tmp[2][sizeof(AD)];
+				memset(tmp, 0x5c, sizeof tmp);
+				std::shared_ptr<T> k2;
+				AD * a = nullptr;
+				throwCountdown() = (op.b & 1) ? 1 : 0;
+				try { a = Make<T, T::copyable>::template build<AD>(tmp[0], seed, op.a, k2); } catch(const Boom &) { a = nullptr; }
+				throwCountdown() = 0;
+				if(a) {
+					AD * b2 = nullptr;
+					throwCountdown() = 1;
+					try { b2 = new (tmp[1]) AD(std::move(*a)); } catch(const Boom &) { b2 = nullptr; }
+					throwCountdown() = 0;
+					if(b2) { check(*b2, "after a move following a build"); b2->~AD(); }
+					a->~AD();
+				}
+				if(ledger().isFlagged()) r.fail("anydata.throw.destroyed", "after a throwing copy / move construction of the held object: " + ledger().message());
 				break;
 			}
 			default: break;
